@@ -13,6 +13,7 @@ import (
 	"encoding/json"
 	"fmt"
 	"sort"
+	"strings"
 
 	ipfslog "berty.tech/go-ipfs-log"
 	"berty.tech/go-ipfs-log/enc"
@@ -31,7 +32,7 @@ var entryFieldPaths = []string{"v", "id", "key", "sig", "hash", "next", "refs", 
 
 var manifestFieldPaths = []string{"id", "heads", "heads.0"}
 
-var mutKinds = [...]string{"absent", "null", "wrong-type", "extra", "wrong-type-2", "empty", "str-double", "str-half", "str-b64-48", "str-odd"}
+var mutKinds = [...]string{"absent", "null", "wrong-type", "extra", "wrong-type-2", "empty", "str-double", "str-half", "str-b64-48", "str-odd", "str-2chars", "str-4chars", "str-upper"}
 
 func wrongType(v interface{}, alt int) interface{} {
 	switch v.(type) {
@@ -78,6 +79,21 @@ func otherString(s string, kind string) string {
 		return s[:len(s)/2]
 	case "str-b64-48":
 		return base64.StdEncoding.EncodeToString(bytes.Repeat([]byte{0xab}, 48))
+	case "str-2chars": // (a hex field cut down to its first byte, e.g. a DER signature after its SEQUENCE tag)
+		if len(s) >= 2 {
+			return s[:2]
+		}
+		return s + "f"
+	case "str-4chars":
+		if len(s) >= 4 {
+			return s[:4]
+		}
+		return s + "f"
+	case "str-upper": // (hex in the other case is the same bytes)
+		if u := strings.ToUpper(s); u != s {
+			return u
+		}
+		return s + "f"
 	default:
 		return s + "f"
 	}
